@@ -7,7 +7,7 @@ from ..runner import Prop, Group
 from .c05 import exact_eating
 
 class C07(Prop):
-    translators = ['rsd', 'eatscf']   # RandomSerialDictatorship.__init__ / scf regenerated from randomized_allocation.py on every run
+    translators = ['rsd', 'eatscf', 'eatloop']   # RandomSerialDictatorship.__init__ / scf regenerated from randomized_allocation.py on every run
     layouts = True
     pid = "C07"
     sources = ["socialchoicekit/randomized_allocation.py", "socialchoicekit/bistochastic.py"]
